@@ -363,6 +363,11 @@ func Build(sh *engine.Shape) (*Frame, error) {
 			for i := 0; i < nk; i++ {
 				kt := []int{EncX25519, EncElGamal, EncMLKEM512, EncX25519}[int(expand(sh.Seed+uint64(i), "kt", 1)[0])%4]
 				kl := EncPubLen(kt)
+				if i < len(sh.Sub) && sh.Sub[i].Kind == "key" {
+					// explicit key type / length (legal but unusual: the length
+					// need not be the one the type usually has)
+					kt, kl = int(u(&sh.Sub[i], 0)), sh.Sub[i].Size
+				}
 				w.put(fmt.Sprintf("keytype%d", i), ClsLen, be(2, uint64(kt)))
 				w.put(fmt.Sprintf("keylen%d", i), ClsLen, be(2, uint64(kl)))
 				w.put(fmt.Sprintf("key%d", i), ClsKey, expand(sh.Seed+uint64(i), "ls2key", kl))
